@@ -1,5 +1,9 @@
 //! C20: canonical k-mer arithmetic. Same case language as ocaml/c20/driver.ml
-use crate::util::*;
+#[path = "../runner.rs"]
+mod runner;
+#[path = "../util.rs"]
+mod util;
+use util::*;
 use ragc_core::kmer::{canonical_kmer, reverse_complement_kmer, Kmer, KmerMode};
 use ragc_core::kmer_extract::enumerate_kmers;
 
@@ -25,4 +29,8 @@ pub fn run(t: &[&str]) -> String {
         }
         _ => "HARNESS-ERROR bad case".into(),
     }
+}
+
+fn main() {
+    runner::main_loop(run);
 }
